@@ -339,10 +339,16 @@ def check_convert(R, prog):
     from . import _cli_fold
     T = _Result(P, "")
     broken = None
+    from .. import report as _report
+    n0 = len(_report.DEFERRED)
     try:
         _shape_convert(T, prog)
     except AnalysisError as e:
         broken = e
+    if _report.DEFERRED[n0:]:
+        # (floors are deferred: a shape rule below its floor is a lost anchor here too, decided by the folding when that confirms)
+        broken = broken or AnalysisError(_report.DEFERRED[n0])
+        del _report.DEFERRED[n0:]
     sems = {tool: _cli_fold.verdict(prog, tool) for tool in ("cnfgen", "pbgen")}
     for tool, v in sems.items():
         cli = prog.func(TOOLS[tool], "cli")
